@@ -15,7 +15,19 @@ BASES = ['', '', 'b', 'd', 'h', 'c', 'n']
 TEXT_CHARS = [34, 92, 94, 96, 127, 32, 65, 66, 97, 122, 48, 57, 58, 59, 44, 123, 125, 35, 64]
 
 
-_KIND = st.sampled_from(['rand', 'rand', 'prefix', 'text', 'run', 'code', 'code', 'words'])
+_KIND = st.sampled_from(['rand', 'rand', 'prefix', 'text', 'run', 'code', 'code', 'words', 'variants'])
+# encodings that share one mnemonic (the additional-opcode sets): several of them side by side, with equal operands
+_VARIANT_GROUPS = [
+    [[0xED, 0x44], [0xED, 0x4C], [0xED, 0x54], [0xED, 0x5C], [0xED, 0x64], [0xED, 0x6C], [0xED, 0x74], [0xED, 0x7C]],      # NEG
+    [[0xED, 0x45], [0xED, 0x55], [0xED, 0x5D], [0xED, 0x65], [0xED, 0x6D], [0xED, 0x75], [0xED, 0x7D]],                    # RETN
+    [[0xED, 0x46], [0xED, 0x4E], [0xED, 0x66], [0xED, 0x6E]],                                                              # IM 0
+    [[0xED, 0x56], [0xED, 0x76]], [[0xED, 0x5E], [0xED, 0x7E]],                                                            # IM 1, IM 2
+    [[0x22, 0x34, 0x92], [0xED, 0x63, 0x34, 0x92]], [[0x2A, 0x34, 0x92], [0xED, 0x6B, 0x34, 0x92]],                        # LD (nn),HL / LD HL,(nn)
+    [[0xDD, 0xCB, 0x05, 0x46], [0xDD, 0xCB, 0x05, 0x40], [0xDD, 0xCB, 0x05, 0x47]],                                        # BIT 0,(IX+5)
+    [[0xED, 0x70], [0xED, 0x71]],
+]
+_VARIANTS = st.lists(st.sampled_from(_VARIANT_GROUPS), min_size=1, max_size=2).flatmap(
+    lambda gs: st.lists(st.sampled_from([e for g in gs for e in g]), min_size=2, max_size=6))
 _RAND = st.binary(min_size=1, max_size=24)
 _PREFIX = st.lists(st.sampled_from([0xDD, 0xFD, 0xED, 0xCB, 0xDD, 0xFD, 0x00, 0x36, 0x63, 0x6B, 0x70, 0x71, 0x4C, 0x55, 0x4E]) | st.integers(0, 255),
                    min_size=1, max_size=16)
@@ -45,6 +57,8 @@ def segments(draw):
         return [draw(_RUNVAL)] * draw(_RUNLEN)
     if kind == 'words':
         return draw(_WORDS)
+    if kind == 'variants':
+        return [b for e in draw(_VARIANTS) for b in e]
     out = []
     for _ in range(draw(_NCODE)):
         k, b, w0, w1 = draw(_CODE)
